@@ -155,7 +155,7 @@ def fromXmlHello (c : RCfg) (o : UriOracle) : (fuel : Nat) → (this : Option He
     match ev with
     | .error => .error .xml
     | .start t =>
-      if t.is BASE "hello" then
+      if t.is BASE "hello" && !(c.oneRoot && this.isSome) then
         (match helloLoop c o fuel t.raw none none rest with
          | .ok (v, r) => fromXmlHello c o fuel (some v) r
          | .error e => .error e)
